@@ -57,6 +57,7 @@ func main() {
 	repo := flag.String("repo", ".", "root of the instrumented copy")
 	replay := flag.String("replay", "", "replay file: re-execute and print the violation key")
 	only := flag.Int("only", -1, "run only this case index")
+	dumpFile := flag.String("dump", "", "debug: print the IR (load, or -opt lang=L) of the workload stored in a replay file")
 	opts := optList{}
 	flag.Var(opts, "opt", "k=v option")
 	flag.Parse()
@@ -79,6 +80,15 @@ func main() {
 	}
 	ctx := &zz.Ctx{Prop: *prop, Tier: *tier, Seed: *seed, RepoRoot: *repo, Dirs: &zz.RunDirs{Root: *tmp}, Stats: zz.NewStats(), Opt: opts}
 
+	if *dumpFile != "" {
+		b, err := os.ReadFile(*dumpFile)
+		if err != nil {
+			fmt.Fprintln(os.Stderr, err)
+			os.Exit(2)
+		}
+		fmt.Println(zz.DumpIR(ctx, b, opts["lang"]))
+		return
+	}
 	if *replay != "" {
 		b, err := os.ReadFile(*replay)
 		if err != nil {
